@@ -26,7 +26,7 @@ Pays   == << <<49, 53, 77>>, <<49>>, << >>, <<49, 42, 77>>, <<255, 0>> >>
 Fills  == << <<48>>, <<53>>, <<54>>, <<48, 53>>, <<48, 54>>, << >>, <<50, 53, 54>>, <<120>> >>
 Stars  == << <<42>>, << >>, <<44>> >>
 \* checksum forms: "ok" is replaced by the computed value
-Cks    == << "ok", "okl", "bad", "ok0", "ok8", "ok9", "none", "g" >>
+Cks    == << "ok", "okl", "bad", "ok0", "ok8", "ok9", "none", "g", "hi1", "hi6" >>
 Tails  == << << >>, <<13, 10>>, <<65>>, <<42, 48>> >>
 
 Hex(n, lower) == LET D(v) == IF v < 10 THEN 48 + v ELSE (IF lower THEN 87 ELSE 55) + v IN <<D(n \div 16), D(n % 16)>>
@@ -39,6 +39,8 @@ Build(tag, delim, addr, n, k, id, chan, pay, fill, star, ck, tail) ==
                  [] ck = "bad" -> Hex((x + 1) % 256, FALSE) [] ck = "ok0" -> <<48>> \o Hex(x, FALSE)
                  [] ck = "ok8" -> Zeros(6) \o Hex(x, FALSE) [] ck = "ok9" -> Zeros(7) \o Hex(x, FALSE)
                  [] ck = "none" -> << >> [] ck = "g" -> <<71>>
+                 \* wider than a byte with the right low byte: must be rejected (value > 0xFF)
+                 [] ck = "hi1" -> <<49>> \o Hex(x, FALSE) [] ck = "hi6" -> <<70, 70, 70, 70, 70, 70>> \o Hex(x, FALSE)
     IN  tag \o delim \o body \o star \o cks \o tail
 
 Base == <<1, 1, 1, 1, 1, 1, 1, 1, 1, 1, 1, 1>>       \* index of the alternative chosen for each of the 12 slots
